@@ -999,12 +999,18 @@ fn qjson(g: &GG, tag: &str, q: &str) -> Value {
     json!({"graph": g.to_json(), "query": q, "shape": tag})
 }
 
+/// Error canonicalisation (BUILDING.md): a fall-back token names the error's VARIANT (first identifier of its
+/// Debug rendering) and never carries its message text (`GraphError::StorageError(String)` etc.).
+fn vname<T: std::fmt::Debug>(e: &T) -> String {
+    format!("{e:?}").chars().take_while(|c| c.is_alphanumeric() || *c == '_').collect()
+}
+
 fn show_path_res(r: &Result<graph_engine::Path, GraphError>) -> String {
     match r {
         Ok(p) => format!("ok {} n={} e={}", p.edges.len(), ids(&p.nodes), ids(&p.edges)),
         Err(GraphError::NodeNotFound(n)) => format!("nonode {n}"),
         Err(GraphError::PathNotFound) => "none".into(),
-        Err(e) => format!("err {e:?}"),
+        Err(e) => format!("err:{}", vname(e)),
     }
 }
 
@@ -1080,7 +1086,7 @@ fn do_weighted(c: &mut Ctx, s: u64, t: u64, costs: &BTreeMap<u64, i128>, negativ
         Err(GraphError::NodeNotFound(n)) => format!("nonode {n}"),
         Err(GraphError::PathNotFound) => "none".into(),
         Err(GraphError::NegativeWeight { edge_id, .. }) => format!("neg {edge_id}"),
-        Err(e) => format!("err {e:?}"),
+        Err(e) => format!("err:{}", vname(e)),
     };
     let model = c.m.ask(&line);
     let nontrivial = s != t && c.g.has(s) && c.g.has(t);
@@ -1160,7 +1166,7 @@ fn do_astar(c: &mut Ctx, s: u64, t: u64, costs: &BTreeMap<u64, i128>, dir: Direc
                     None => format!("ok ~{}", p.total_weight),
                 },
             },
-            Err(e) => format!("err {e:?}"),
+            Err(e) => format!("err:{}", vname(e)),
         };
         let mline = format!("astar {s} {t} {}", dir_name(dir));
         let model = c.m.ask(&mline);
@@ -1247,7 +1253,7 @@ fn do_astar_cfg(c: &mut Ctx, s: u64, t: u64, dir: Direction, etype: Option<u8>, 
                     None => format!("ok ~{}", p.total_weight),
                 },
             },
-            Err(e) => format!("err {e:?}"),
+            Err(e) => format!("err:{}", vname(e)),
         };
         let model = c.m.ask(&line);
         c.rep.compare("astar_path.config", || qjson(g, &tag, &line), &imp, &model);
@@ -1311,7 +1317,7 @@ fn do_all_paths(c: &mut Ctx, s: u64, t: u64, caps: Option<(usize, usize)>) {
         .to_string(),
         Err(GraphError::NodeNotFound(n)) => format!("nonode {n}"),
         Err(GraphError::PathNotFound) => "none".into(),
-        Err(e) => format!("err {e:?}"),
+        Err(e) => format!("err:{}", vname(e)),
     };
     let model = c.m.ask(&line);
     c.rep.compare("find_all_paths", || qjson(g, &tag, &line), &imp, &model);
@@ -1449,7 +1455,7 @@ fn do_all_weighted(c: &mut Ctx, s: u64, t: u64, costs: &BTreeMap<u64, i128>, cap
             Err(GraphError::NodeNotFound(n)) => format!("nonode {n}"),
             Err(GraphError::PathNotFound) => "none".into(),
             Err(GraphError::NegativeWeight { edge_id, .. }) => format!("neg {edge_id}"),
-            Err(e) => format!("err {e:?}"),
+            Err(e) => format!("err:{}", vname(e)),
         };
         let model = c.m.ask(&line);
         c.rep.compare("find_all_weighted_paths", || qjson(g, &tag, &line), &imp, &model);
@@ -1542,7 +1548,7 @@ fn do_adjacency(c: &mut Ctx, n: u64, dir: Direction, etype: Option<u8>, f: &Filt
         let imp = match &res {
             Ok(es) => format!("ok {}", ids(&es.iter().map(|e| e.id).collect::<Vec<_>>())),
             Err(GraphError::NodeNotFound(x)) => format!("nonode {x}"),
-            Err(e) => format!("err {e:?}"),
+            Err(e) => format!("err:{}", vname(e)),
         };
         let model = c.m.ask(&line);
         let key = format!("{}|{}", tag, line);
@@ -1590,7 +1596,7 @@ fn do_adjacency(c: &mut Ctx, n: u64, dir: Direction, etype: Option<u8>, f: &Filt
                 (format!("ok {}", ids(&v)), Some(v))
             }
             Err(GraphError::NodeNotFound(x)) => (format!("nonode {x}"), None),
-            Err(e) => (format!("err {e:?}"), None),
+            Err(e) => (format!("err:{}", vname(e)), None),
         };
         let model = c.m.ask(&line);
         let key = format!("{}|{}", tag, line);
@@ -1646,7 +1652,7 @@ fn do_traverse(c: &mut Ctx, s: u64, dir: Direction, md: usize, etype: Option<u8>
             (format!("ok {}", ids(&v)), Some(v))
         }
         Err(GraphError::NodeNotFound(n)) => (format!("nonode {n}"), None),
-        Err(e) => (format!("err {e:?}"), None),
+        Err(e) => (format!("err:{}", vname(e)), None),
     };
     let model = c.m.ask(&line);
     let key = format!("{}|{}", tag, line);
